@@ -238,7 +238,7 @@ def stage_D(d: str, s: dict, crash=None) -> dict:
     from scipy import sparse
     import molgri.molecules.transitions as tr
     my_matrix = sparse.load_npz(os.path.join(d, "rate_matrix.npz"))
-    real_eigs = tr.eigs
+    real_eigs = getattr(tr, "eigs", None)  # the seam; a tree that no longer binds this name runs unseeded
     notes = {}
     sigma = effective_sigma(s, my_matrix)
     for i, seed in enumerate(s["seeds"]):
@@ -249,7 +249,8 @@ def stage_D(d: str, s: dict, crash=None) -> dict:
             if "rng" not in kw and kw.get("v0") is None:
                 kw["rng"] = np.random.default_rng(_seed)
             return real_eigs(A, *a, **kw)
-        tr.eigs = seeded_eigs
+        if real_eigs is not None:
+            tr.eigs = seeded_eigs
         try:
             dt = tr.DecompositionTool(my_matrix)
             try:
@@ -261,7 +262,8 @@ def stage_D(d: str, s: dict, crash=None) -> dict:
                     continue
                 raise
         finally:
-            tr.eigs = real_eigs
+            if real_eigs is not None:
+                tr.eigs = real_eigs
         np.save(os.path.join(d, f"eigenvalues_{i}.npy"), np.array(ev))
         np.save(os.path.join(d, f"eigenvectors_{i}.npy"), np.array(evec))
     return {"notes": notes}
